@@ -350,7 +350,49 @@ def tail_value_callee_every_tick(r):
     return prog(["g0"], [g, f], main, ["tail_position_call", "called_fn", "value_callee_as_statement", "long_run"])
 
 
-ALL = [tail_value_callee_every_tick, device_set_tests, computed_range_bounds_body_temps, forlist_inlined_wrapper_calls_out, forlist_nested_and_return, tail_after_inlined_wrapper_calls_out, param_mutation, param_mutation_twice, alias_outlives_source, alias_chain, callee_via_symbolless_function,
+def return_in_trailing_if_else_after_call(r):
+    """a function that makes a call (so it saves ra) and ends in an if / else whose branches end in
+    `return <value>`: under push/pop every such exit must restore ra before the value is pushed"""
+    scale = fn("scale", 1, [], [("return", bin_("*", var("p0"), num(2)))], True)
+    clamp = fn("clamp", 1, ["l0"], [("assign", "l0", call("scale", var("p0"))),
+                                    ("if", [(("cmp", ">", var("l0"), num(10)), [("return", num(10))])], [("return", var("l0"))])], True)
+    pick = fn("pick", 1, ["l0"], [("assign", "l0", bin_("+", call("scale", var("p0")), num(1))),
+                                  ("if", [(("cmp", ">", var("l0"), num(10)), [("return", num(10))]),
+                                          (("cmp", ">", var("l0"), num(4)), [("return", var("l0"))])], None),
+                                  ("return", num(0))], True)
+    main = [wr(call("clamp", num(3))), wr(call("clamp", small(rd(0), 9))), wr(call("clamp", num(1))),
+            wr(call("pick", num(1)), 1), wr(call("pick", small(rd(1), 9)), 1), wr(call("scale", num(4)), 2)]
+    return prog([], [scale, clamp, pick], main, ["called_fn", "return_in_trailing_branch", "early_return"])
+
+
+def if_body_ends_in_conditional_jump(r):
+    """an if / else whose if-body ends in a nested if (without else) that jumps (continue / break / return):
+    when the inner test fails, control reaches the end of the body and must skip the else part"""
+    f = fn("f0", 1, [], [("if", [(("cmp", ">", var("p0"), num(0)),
+                                  [wr(var("p0"), 1), ("if", [(("cmp", ">", var("p0"), num(5)), [("return", num(1))])], None)]),
+                                 (("cmp", "<", var("p0"), num(0)), [wr(bin_("-", num(0), var("p0")), 1)])],
+                          [wr(num(77), 1)]),
+                         ("return", num(2))], True)
+    main = [("forrange", "i0", [num(4)], [
+                ("if", [(("cmp", "<", var("i0"), num(3)),
+                         [wr(var("i0"), 2), ("if", [(("cmp", "==", var("i0"), small(rd(0), 3)), [("continue",)])], None)])],
+                 [wr(num(9), 2)]),
+                wr(bin_("+", var("i0"), num(100)), 2)]),
+            wr(call("f0", num(3))), wr(call("f0", num(8))), wr(call("f0", num(0))), wr(call("f0", bin_("-", num(0), small(rd(1), 4))))]
+    return prog(["i0"], [f], main, ["called_fn", "nested_conditional_jump", "early_return"])
+
+
+def tail_call_with_call_in_argument(r):
+    """the last statement of a function is a call whose argument is itself a call of a function reached by
+    jal: the inner call overwrites ra, so the outer call must not become a jump"""
+    g = fn("g", 1, [], [("return", bin_("+", var("p0"), num(1)))], True)
+    h = fn("h", 1, [], [wr(var("p0"))], False)
+    f = fn("f", 1, [], [("expr", call("h", call("g", var("p0"))))], False)
+    main = [("expr", call("f", num(1))), ("expr", call("f", small(rd(0), 9))), ("expr", call("h", call("g", num(100)))), wr(call("g", num(7)), 1)]
+    return prog([], [g, h, f], main, ["tail_position_call", "called_fn", "call_in_argument_of_tail_call"])
+
+
+ALL = [tail_call_with_call_in_argument, return_in_trailing_if_else_after_call, if_body_ends_in_conditional_jump, tail_value_callee_every_tick, device_set_tests, computed_range_bounds_body_temps, forlist_inlined_wrapper_calls_out, forlist_nested_and_return, tail_after_inlined_wrapper_calls_out, param_mutation, param_mutation_twice, alias_outlives_source, alias_chain, callee_via_symbolless_function,
        callee_via_two_symbolless, nested_loops_innermost_only, while_in_for, inlined_return_register, temp_across_call,
        range_down_exact, bound_reread, early_return_with_inner_call, unused_parameter, return_call_tail,
        suffix_named_inlined, modulo_negative, tiny_constants, tail_into_inlined, tail_from_inlined_host, tail_chain,
